@@ -448,6 +448,56 @@ static void other_scenarios()
                                              return pr;
                                          }});
             }
+    // stream insertion with the stream at every fill level just below a capacity boundary (sign / first piece fits, the rest
+    // needs the growth that fails)
+    for (size_t cap : {size_t(256), size_t(512)})
+        for (size_t fill = cap - 14; fill <= cap; ++fill)
+            for (int what = 0; what < 5; ++what) {
+                static const char *WN[5] = {"<< -12345", "<< -123456789012LL", "<< 1.5e300", "<< \"sixteen chars....\"", "<< 4000000000u"};
+                g_scn.push_back(Scenario{vf::strf("string_stream[%zu] %s", fill, WN[what]), [=](vf::Outcome &oc) {
+                                             std::string pv(fill, 'p');
+                                             ST::string_stream ss;
+                                             SETUP(ss.append(pv.data(), pv.size()));
+                                             oc = vf::guard([&] {
+                                                 switch (what) {
+                                                 case 0: LIB(ss << -12345); break;
+                                                 case 1: LIB(ss << -123456789012LL); break;
+                                                 case 2: LIB(ss << 1.5e300); break;
+                                                 case 3: LIB(ss << "sixteen chars...."); break;
+                                                 default: LIB(ss << 4000000000u); break;
+                                                 }
+                                             });
+                                             std::string pr;
+                                             if (!oc.ok()) {
+                                                 pr = stream_problem(ss, pv);
+                                                 // a partly appended piece (e.g. a lone sign) is neither the previous content nor nothing
+                                             }
+                                             LIB(ss.~string_stream(); new (&ss) ST::string_stream());
+                                             return pr;
+                                         }});
+            }
+    // extraction of a token long enough for the string's own heap storage: the library's allocation failing must not be
+    // turned into a mere stream state
+    for (int wide = 0; wide < 2; ++wide)
+        g_scn.push_back(Scenario{wide ? "wistringstream >> S (24-unit token)" : "istringstream >> S (24-byte token)", [=](vf::Outcome &oc) {
+                                     S x;
+                                     bool bad = false;
+                                     oc = vf::guard([&] {
+                                         if (wide) {
+                                             std::wistringstream is(L"0123456789abcdefghijklmn rest");
+                                             LIB(is >> x);
+                                             bad = is.bad();
+                                         } else {
+                                             std::istringstream is("0123456789abcdefghijklmn rest");
+                                             LIB(is >> x);
+                                             bad = is.bad();
+                                         }
+                                     });
+                                     // allocations made by the std::basic_istream machinery itself end up as badbit (standard behaviour)
+                                     if (oc.ok() && bad) oc.kind = vf::EX_BAD_ALLOC;
+                                     LIB(x.~S(); new (&x) S());
+                                     return std::string();
+                                 }});
     // a std::basic_ostream turns an exception raised while it grows its own buffer into badbit: count that as "reported"
     g_scn.push_back(Scenario{"std::ostringstream << S(long)", [](vf::Outcome &oc) {
                                  bool bad = false;
